@@ -26,10 +26,26 @@ pub fn arb_wild_attr() -> BoxedStrategy<RAttr> {
     let fault = prop_oneof![4 => Just(Fault::Correct), 1 => any::<u16>().prop_map(Fault::FlipBit), 1 => Just(Fault::WrongKey)];
     let key = Just(KeySpec::ShortTerm("wild-pass".to_string()));
     prop_oneof![
-        10 => arb_plain_attr(GenOpts { raw: true, data_max: 200, padding_max: 300, ..GenOpts::default() }),
-        1 => (key.clone(), fault.clone()).prop_map(|(key, fault)| RAttr::Mi(MacSpec::Keyed { key, fault })),
-        1 => (key, fault.clone()).prop_map(|(key, fault)| RAttr::MiSha256(MacSpec::Keyed { key, fault })),
-        1 => fault.prop_map(|f| RAttr::Fp(FpSpec::Computed(f))),
+        40 => arb_plain_attr(GenOpts { raw: true, data_max: 200, padding_max: 300, ..GenOpts::default() }),
+        4 => (key.clone(), fault.clone()).prop_map(|(key, fault)| RAttr::Mi(MacSpec::Keyed { key, fault })),
+        4 => (key, fault.clone()).prop_map(|(key, fault)| RAttr::MiSha256(MacSpec::Keyed { key, fault })),
+        4 => fault.prop_map(|f| RAttr::Fp(FpSpec::Computed(f))),
+        // text values LONGER than the decoder accepts (valid UTF-8 of mixed character widths, shifted by 0-3 ASCII
+        // characters so that multi-byte characters straddle every offset): the refusal path must be as clean as any other
+        1 => (0usize..7, 0usize..4, proptest::sample::select(vec![510usize, 600, 763, 764, 765, 800, 1020, 1100]), proptest::collection::vec(any::<u16>(), 1..8), 0u8..6)
+            .prop_map(|(kind, shift, len, seed, alpha)| {
+                let mut t = "a".repeat(shift);
+                t.push_str(&build_string(len - shift, [1u8, 2, 3, 4, 5, 5][alpha as usize], &seed));
+                match kind {
+                    0 => RAttr::Software(t),
+                    1 => RAttr::ErrorCode { code: 400 + (len % 100) as u16, reason: t },
+                    2 => RAttr::AddressErrorCode { family: 1, code: 440, reason: t },
+                    3 => RAttr::Realm(t),
+                    4 => RAttr::Nonce(t),
+                    5 => RAttr::UserName(t),
+                    _ => RAttr::Padding(t),
+                }
+            }),
     ]
     .boxed()
 }
